@@ -834,3 +834,58 @@ def drv_tt_svd(doc, args, inst):
 
 
 DRIVERS.update({'tt_svd': drv_tt_svd})
+
+
+def drv_round(doc, args, inst):
+    """rounding replay: over-parameterised, badly scaled, non-orthogonal cores; zero tensor; ties"""
+    msgs = []
+    try:
+        eps = float(inst.get('eps', 1e-3))
+    except Exception:
+        eps = 1e-3
+    eps = min(max(eps, 0.0), 0.9)
+    rmax = inst.get('rmax', 10 ** 6)
+    for seed in range(3):
+        x = build(inst, args['x'], 10 + seed)
+        d = len(x.N)
+        # scale the cores wildly and make them rank deficient
+        with tn.no_grad():
+            for k, c in enumerate(x.cores):
+                c.mul_(10.0 ** ((-1) ** k * (k + 1)))
+        if isinstance(rmax, list):
+            rm = [1] + [clampi(r, 1, 50) for r in rmax[1:-1]] + [1]
+            rarg = rm
+        else:
+            try:
+                rarg = max(1, min(int(rmax), 10 ** 6))
+            except Exception:
+                rarg = 10 ** 6
+            rm = [1] + [rarg] * (d - 1) + [1]
+        sx = snapshot(x)
+        for e in (eps, 0.0, 0.3):
+            try:
+                y = x.round(e, rarg)
+            except Exception as ex_:
+                return ['round(%g, %s) raises %s: %s for %s' % (e, rarg, type(ex_).__name__, str(ex_)[:120], descr(x))]
+            we = wf_errors(y)
+            if we:
+                msgs.append('result not well formed: %s' % we)
+            if list(y.N) != list(x.N):
+                msgs.append('shape changed: %s -> %s' % (x.N, y.N))
+            if any(a > b for a, b in zip(y.R, x.R)):
+                msgs.append('rank raised: %s -> %s' % (x.R, y.R))
+            if any(a > b for a, b in zip(y.R, rm)):
+                msgs.append('rank %s above rmax %s' % (y.R, rm))
+            binding = any(y.R[k] >= rm[k] for k in range(1, d))
+            nx = float(tn.linalg.norm(sx['full']))
+            err = float(tn.linalg.norm(y.full() - sx['full'])) / max(nx, 1e-300)
+            if not binding and err > e * (1 + 1e-9) + 1e-11:
+                msgs.append('round(eps=%g) of %s: relative error %.4g > eps (ranks %s -> %s)' % (e, descr(x), err, x.R, y.R))
+            if not unchanged(x, sx):
+                msgs.append('operand changed by round(): R %s -> %s' % (sx['R'], x.R))
+            if msgs:
+                return msgs
+    return msgs
+
+
+DRIVERS.update({'round': drv_round})
